@@ -72,8 +72,10 @@ ChecksumFor(lines, asset) == IF lines = <<>> THEN "none"
 \* unit to 1200 s); tags are abstract: the running version is "same"
 UnitsPerHour == 3
 Window == 72 * UnitsPerHour
-Tags == {"older", "same", "newer", "garbage"}
-NewerTag(tag) == tag = "newer"
+\* "newersp" is a newer version whose tag carries a blank-separated suffix ("v1.3.0 beta": suffixes never matter); the cache file
+\* keeps a tag as one LINE, so it survives the round trip through the file like any other
+Tags == {"older", "same", "newer", "garbage", "newersp"}
+NewerTag(tag) == tag \in {"newer", "newersp"}
 Expired(tp, now) == now - tp >= Window
 
 \* result of one invocation: [cache, notice]
